@@ -3,8 +3,9 @@
 Correspondence (implementation `tools/floorset_parser/floor_set_manager/strop.py`, `…/utils/utils.py` vs the Lean
 model `FV/Model/Strop.lean`, driver `drv_strop`):
   * grids: `Strop(matrix)` — error class, `is_strop`, the instances (trunk + branches per side, branch order as
-    produced, instance order canonicalised because it comes from a `set`), `_get_potential_trunks`,
-    `_get_trunks_matrix`, `_row_interval`, `rectangles(which)`;
+    produced, instance order canonicalised because it comes from a `set`), `rectangles(which)`; and, as optional
+    internal-stage observation points (skipped with a note when a private member is missing or re-shaped),
+    `_get_potential_trunks`, `_get_trunks_matrix`, `_row_interval`;
   * vertex lists (lists of `Point` and of numpy arrays, both orientations): the 0/1 matrix built from the cell
     centres, `is_point_inside_polygon`, `strop_decomposition` (the implementation's answer must be one of the
     model's candidates: it takes the first element of a set iteration).
@@ -103,22 +104,67 @@ def canon_strop_reply(reply: str) -> str:
     return parts[0] + "".join(" | " + i for i in sorted(parts[1:]))
 
 
-def impl_pt(s: Strop) -> str:
-    return " ".join(sorted(_rect(r) for r in s._get_potential_trunks()))
+# ---- private observation points (optional): looked up once; a missing / re-shaped private member only switches the
+# ---- internal-stage correspondence stream off — the public API streams carry the property
+PRIVATE_POINTS = ("_get_potential_trunks", "_get_trunks_matrix", "_row_interval")
+PRIVATE: dict[str, bool] = {}
 
 
-def impl_tm(rows: list[str]) -> str:
+def probe_private() -> dict[str, bool]:
+    """which private observation points exist and answer a smoke call in the expected shape."""
+    PRIVATE.clear()
+    for name in PRIVATE_POINTS:
+        ok = hasattr(Strop, name)
+        if ok:
+            try:
+                if name == "_get_potential_trunks":
+                    r = getattr(Strop("1"), name)()
+                    ok = sorted(_rect(x) for x in r) == ["0.0.0.0"]
+                elif name == "_get_trunks_matrix":
+                    r = getattr(Strop, name)([[True]])
+                    ok = sorted(_rect(x) for x in r) == ["0.0.0.0"]
+                else:
+                    r = getattr(Strop, name)([False, True])
+                    ok = (r.low, r.high) == (1, 1) and r.empty() is False
+            except Exception:  # noqa: BLE001  (the harness's own access: never a finding)
+                ok = False
+        PRIVATE[name] = ok
+    return PRIVATE
+
+
+def private_call(fn, *args):
+    """the harness's own use of a private member: any exception means 'observation not available here' (None)."""
+    try:
+        return fn(*args)
+    except Exception:  # noqa: BLE001
+        return None
+
+
+def impl_pt(s: Strop):
+    if not PRIVATE.get("_get_potential_trunks"):
+        return None
+    return private_call(lambda: " ".join(sorted(_rect(r) for r in getattr(s, "_get_potential_trunks")())))
+
+
+def impl_tm(rows: list[str]):
+    if not PRIVATE.get("_get_trunks_matrix"):
+        return None
     m = [[c == "1" for c in r] for r in rows]
-    return " ".join(sorted(_rect(r) for r in Strop._get_trunks_matrix(m)))
+    return private_call(lambda: " ".join(sorted(_rect(r) for r in getattr(Strop, "_get_trunks_matrix")(m))))
 
 
 def canon_list(reply: str) -> str:
     return " ".join(sorted(reply.split()))
 
 
-def impl_rowiv(row: str) -> str:
-    i = Strop._row_interval([c == "1" for c in row])
-    return "empty" if i.empty() else _iv(i)
+def impl_rowiv(row: str):
+    if not PRIVATE.get("_row_interval"):
+        return None
+
+    def go():
+        i = getattr(Strop, "_row_interval")([c == "1" for c in row])
+        return "empty" if i.empty() else _iv(i)
+    return private_call(go)
 
 
 def impl_which(rows: list[str], sel: str) -> str:
@@ -591,8 +637,8 @@ def _grid_impl(rows: list[str]):
     pt = tm = None
     is_strop = None
     if s is not None:
-        pt = guarded(fails, "_get_potential_trunks", impl_pt, s)
-        tm = guarded(fails, "_get_trunks_matrix", impl_tm, rows)
+        pt = impl_pt(s)      # private observation points: None when not available (never a finding)
+        tm = impl_tm(rows)
         r = guarded(fails, "instances()/rectangles()", spec_grid, rows, s)
         if isinstance(r, list):
             fails += r
@@ -608,6 +654,7 @@ def grid_case(ctx: Ctx, rows: list[str], fam: str, reqs, todo, count=True) -> No
     if pt is not None:
         reqs.append("G pt " + grid_req(rows))
         todo.append(("pt", inp, pt))
+    if tm is not None:
         reqs.append("G tm " + grid_req(rows))
         todo.append(("tm", inp, tm))
     for clause, detail in fails:
@@ -637,10 +684,11 @@ def which_case(ctx: Ctx, rows, sel, reqs, todo) -> None:
 
 def rowiv_case(ctx: Ctx, row: str, reqs, todo) -> None:
     inp = {"kind": "rowiv", "row": row}
-    fails: list = []
+    impl = impl_rowiv(row)
+    if impl is None:     # private observation point not available
+        return
     reqs.append("G rowiv " + (row if row else "."))
-    todo.append(("rowiv", inp, guarded(fails, "_row_interval", impl_rowiv, row)))
-    _flush(ctx, fails, inp, len(row))
+    todo.append(("rowiv", inp, impl))
     ctx.case("rowiv", row, nontrivial="1" in row)
 
 
@@ -792,6 +840,15 @@ CORPUS = [
 ]
 
 
+def _note_private(ctx: Ctx) -> None:
+    avail = probe_private()
+    ctx.extra["private_observation_points"] = dict(avail)
+    for name, ok in avail.items():
+        if not ok:
+            ctx.notes.append(f"observation point Strop.{name} not available: internal-stage correspondence skipped; "
+                             "public behaviour still compared")
+
+
 def run(ctx: Ctx) -> None:
     ctx.rule = ("grids: every 0/1 grid of the listed sizes (exhaustive stream, run in 16 worker processes through implementation, "
                 "brute-force oracle, instance clauses and Lean model: quick all sizes ≤4×4; thorough all sizes ≤4×5 and ≤5×4, "
@@ -807,6 +864,7 @@ def run(ctx: Ctx) -> None:
                            "coordinates are finite doubles, no NaN / signed zeros")
     ctx.notes.append("all-zero grid: no potential trunk, is_strop=False, no instance (oracle: no non-empty trunk exists); "
                      "empty or ragged matrix: AssertionError = err:Assert")
+    _note_private(ctx)
     rng = ctx.rng
     reqs, todo = [], []
     seeds = getattr(ctx, "seed_inputs", [])
@@ -859,6 +917,7 @@ def _replay_into(ctx: Ctx, inp: dict, reqs, todo) -> None:
 
 
 def replay(ctx: Ctx, body: dict) -> None:
+    _note_private(ctx)
     reqs, todo = [], []
     _replay_into(ctx, body["input"], reqs, todo)
     replies = ctx.model(reqs)
